@@ -1,4 +1,4 @@
-import DK.Model.Leaf
+import DK.Model.Constraints
 /-!
 # Acceptance conditions of the leaf constructors (the part the usability property C10 relies on)
 
@@ -15,8 +15,12 @@ power of the cost kernels and constraint closures (file:line refers to `/repo/de
 | `SDevice` | `c1,c2,c3 ≥ 0`, `¬(c2 > c1 > 0)`, `capacity > 0`, `start, reserve, damage_depth ∈ [0,1]`, `efficiency, sustainment ∈ (0,1]` | sdevice.py:215-270 |
 | `TDevice` | `sustainment ∈ [0,1]`, `efficiency ≠ 0`, `t_range ≥ 0`, `c ≥ 0` | tdevice.py:48-60 |
 
-Cumulative bounds, the form of the bounds argument, and non-scalar shape checks are the subject of
-C11 and are not restated here.  The predicates are decidable, so the driver evaluates them at exact
+| every `Device` | each cumulative bound `(l, h, s, e)`: `0 ≤ s < e ≤ len`, `l < h`, `Σ lb[s:e] ≤ h`, `l ≤ Σ hb[s:e]` | device.py:150-161 (`set_cbound`) |
+| `CDevice2` | with several cumulative bounds: ranges start at 0, are contiguous and end at `len` | functions.py:218-222 (`_validate_ranges`), cdevice2.py:19 |
+
+The form of the bounds / cbounds arguments and non-scalar shape checks (vector slopes of `CDevice2`, the
+row count of a `GDevice` coefficient table, `TwoRatioMFDeviceSet(ratios=None)`) cannot be expressed in
+a `Leaf` description; they are the subject of C11 and are probed on the implementation only.  The predicates are decidable, so the driver evaluates them at exact
 rationals against the real constructors (`accept.leaf`), and the C10 theorems use the very same
 definitions at `ℝ` as their hypotheses.
 -/
@@ -54,6 +58,33 @@ def accTParams (n : Nat) (q : TParams α) : Prop :=
   ((0 : α) ≤ q.sustainment ∧ q.sustainment ≤ 1) ∧ ¬ (q.efficiency = 0) ∧ (0 : α) ≤ q.tRange
   ∧ ∀ k, k < n → (0 : α) ≤ q.c k
 
+/-- `Device.cbounds` setter (`set_cbound`): a non-empty slot range inside the horizon, `low < high`, and
+feasibility with respect to the per-slot bounds. -/
+def accCBound (n : Nat) (lb hb : Nat → α) (cb : CBound α) : Prop :=
+  cb.s < cb.e ∧ cb.e ≤ n ∧ cb.l < cb.h ∧ sliceSum n cb.s cb.e lb ≤ cb.h ∧ cb.l ≤ sliceSum n cb.s cb.e hb
+
+def accCBounds (n : Nat) (lb hb : Nat → α) (cbs : List (CBound α)) : Prop :=
+  ∀ cb ∈ cbs, accCBound n lb hb cb
+
+/-- consecutive ranges are contiguous (`RangesFunction._validate_ranges`). -/
+def contiguous : List (CBound α) → Bool
+  | a :: b :: rest => a.e == b.s && contiguous (b :: rest)
+  | _ => true
+
+/-- `CDevice2.__init__`: a single cumulative bound takes the whole-vector branch; several must tile `[0, len)`. -/
+def accRanges (n : Nat) (cbs : List (CBound α)) : Prop :=
+  match cbs with
+  | [] => True
+  | [_] => True
+  | c :: rest => c.s = 0 ∧ contiguous (c :: rest) = true ∧ ((c :: rest).getLast?.map (·.e)) = some n
+
+instance (n : Nat) (lb hb : Nat → α) (cb : CBound α) : Decidable (accCBound n lb hb cb) := by
+  unfold accCBound; infer_instance
+instance (n : Nat) (lb hb : Nat → α) (cbs : List (CBound α)) : Decidable (accCBounds n lb hb cbs) := by
+  unfold accCBounds; infer_instance
+instance (n : Nat) (cbs : List (CBound α)) : Decidable (accRanges n cbs) := by
+  unfold accRanges; split <;> infer_instance
+
 instance (n : Nat) (lb hb : Nat → α) : Decidable (accBounds n lb hb) := by unfold accBounds; infer_instance
 instance (n : Nat) (hb : Nat → α) : Decidable (accProducer n hb) := by unfold accProducer; infer_instance
 instance (n : Nat) (pl ph : Nat → α) : Decidable (accHLQ n pl ph) := by unfold accHLQ; infer_instance
@@ -66,11 +97,11 @@ namespace Leaf
 
 /-- the scalar acceptance conditions of a shipped leaf (`isProducer`: `PVDevice`, `GDevice`). -/
 def Accepted (d : Leaf α) (isProducer : Bool) : Prop :=
-  accBounds d.n d.lb d.hb ∧ (isProducer = true → accProducer d.n d.hb) ∧
+  accBounds d.n d.lb d.hb ∧ (isProducer = true → accProducer d.n d.hb) ∧ accCBounds d.n d.lb d.hb d.cbs ∧
   (match d.kind with
    | .device => True
    | .cdevice a _ => a ≤ 0
-   | .cdevice2 pl ph => accHLQ 1 (fun _ => pl) (fun _ => ph)
+   | .cdevice2 pl ph => accHLQ 1 (fun _ => pl) (fun _ => ph) ∧ accRanges d.n d.cbs
    | .idevice a b c => accABC d.n a b c
    | .idevice2 pl ph => accHLQ d.n pl ph
    | .gdevice _ => True
